@@ -1,11 +1,14 @@
-#!/usr/bin/env python3
+#!/venv/bin/python
 """Regenerate /verif/MANIFEST.json from harness/registry.py and the properties file."""
 import json
 import os
 import sys
 V = os.path.dirname(os.path.dirname(os.path.abspath(__file__)))
 sys.path.insert(0, V)
-from harness.registry import CHECKS, COMMON_NOTE, NOT_APPLICABLE, HOOK_COMMITS  # noqa
+sys.path.insert(0, os.environ.get('VERIF_REPO', '/repo'))
+import importlib  # noqa
+from harness.registry import CLAIMED, COMMON_NOTE, NOT_APPLICABLE, HOOK_COMMITS  # noqa
+CHECKS = {p: importlib.import_module('harness.props.' + p.lower()).MANIFEST for p in CLAIMED}
 
 props = [json.loads(l)['id'] for l in open(os.path.join(V, 'properties.jsonl'))]
 checks = []
